@@ -175,10 +175,11 @@ Section Cmp.
     rewrite C. cbn [negb].
     assert (T : bytes_eqb (typ w) collection_of_items || true && bytes_eqb (typ w) collection_of_iris = true).
     { destruct w; try discriminate; vm_compute; reflexivity. }
-    rewrite T. cbn [negb]. rewrite <- (forall2_length _ _ _ HF), Nat.eqb_refl. cbn [negb].
-    apply all_contained_n. intros x Hx. destruct (forall2_in_l _ _ _ x HF Hx) as [m [Hm Hxm]].
-    exists m. split; [exact Hm|]. apply IH; [apply nsame_sym; exact Hxm|].
-    rewrite <- (nsame_esize _ _ Hxm). apply Hs. exact Hx.
+    rewrite T. cbn [negb]. rewrite all_matched_fresh. rewrite <- (forall2_length _ _ _ HF), Nat.eqb_refl. cbn [negb].
+    (* members that agree position by position are matched position by position *)
+    apply all_removed_pointwise. clear Hl. induction HF as [|x m l0 l0' Hxm HF' IHF]; constructor.
+    - apply IH; [apply nsame_sym; exact Hxm|]. rewrite <- (nsame_esize _ _ Hxm). apply Hs. left; reflexivity.
+    - apply IHF. intros z Hz. apply Hs. right; exact Hz.
   Qed.
 
   Section TwoFields.
